@@ -28,7 +28,7 @@ RULE = ('random name-resolved action bodies (quick: 1-10 top-level statements, t
         'constants, in the four homes; every fifth body (plus focused families) also holds event statements - generate to '
         'class / assigner / creator / instance, create event instance, generate <event variable>, with 0-3 data items; a '
         'sixth of the fresh names re-use a name whose block has ended (a new variable); '
-        'plus one focused family per statement kind and home; about a quarter of the variable / handle / set names are the name of another variable of the body in a different letter case (x4 / X4: distinct variables, possibly of other kind or type, also across nested blocks; neither canon folds identifier case); the model has enumerations sharing enumerator names, a constant named like an enumerator and two constant specifications with a constant of the same name, all read in one body; string literals hold backslashes, percent signs, ticks, tabs and comment openers (OAL strings have no escapes); surface spelling varied (keyword case, assign/then/loop/'
+        'plus one focused family per statement kind and home; about a quarter of the variable / handle / set names are the name of another variable of the body in a different letter case (x4 / X4: distinct variables, possibly of other kind or type, also across nested blocks; neither canon folds identifier case); the model has enumerations sharing enumerator names, a constant named like an enumerator and two constant specifications with a constant of the same name, all read in one body; string literals hold backslashes, percent signs, ticks, tabs and comment openers (OAL strings have no escapes); instance handles / sets / loop and event variables are sometimes NAMED LIKE a constant of the model (read after the select / create that declares them); the named actual parameters of about 40 % of the calls with two or more parameters are written in another order than the declaration (statement, value and nested positions); surface spelling varied (keyword case, assign/then/loop/'
         'instances of, ticked or bare phrases, redundant parentheses, comments). Non-trivial: >= 2 statements and >= 12 '
         'tokens regenerated; distinct = distinct body text per home')
 EXHAUSTIVE = {'quick': False, 'thorough': False}
